@@ -593,12 +593,19 @@ econf_err econf_writeFile(econf_file *key_file, const char *save_to_dir,
   }
 
   // Write to file
+  // Group-less entries cannot follow a group header in the file, so all of
+  // them are written first (pass 0), then the entries with a group (pass 1).
+  const char *last_group = NULL;
+  for (int pass = 0; pass < 2; pass++)
   for (size_t i = 0; i < key_file->length; i++) {
+    if ((strcmp(key_file->file_entry[i].group, KEY_FILE_NULL_VALUE) == 0) !=
+	(pass == 0))
+      continue;
     // Writing group
-    if (!i || strcmp(key_file->file_entry[i - 1].group,
-                     key_file->file_entry[i].group)) {
-      if (i)
+    if (!last_group || strcmp(last_group, key_file->file_entry[i].group)) {
+      if (last_group)
         fprintf(kf, "\n");
+      last_group = key_file->file_entry[i].group;
       if (strcmp(key_file->file_entry[i].group, KEY_FILE_NULL_VALUE)) {
 	char *group = addbrackets(key_file->file_entry[i].group);
 	fprintf(kf, "%s\n", group);
